@@ -98,10 +98,19 @@ Inductive sop :=
 | SExpire                        (* the expiry timer fires (bucket.doExpiration) *)
 | SDumpKeys (coll : string) (start : N)       (* a dump feed with KeysOnly: the same events without body and xattrs *)
 | SGetDDocs (coll : string)      (* GetDDocs: the collection's design documents and their views *)
-| SDraw (coll key : string) (op : kop) (b : N).
+| SDraw (coll key : string) (op : kop) (b : N)
                                  (* the compare-and-swap loop of the call `op` that follows (Update, WriteUpdateWithXattrs,
                                     sub-document writes) began b transactions in all: those beyond what the call itself
                                     accounts for were failed attempts, rolled back, each having consumed one timestamp *)
+| SExpireScan (wc : string)      (* the expiry timer has fired and its sweep has come as far as collection wc: the collections
+                                    before it have been swept, the keys of wc whose expiry has passed have been read (the answer
+                                    of this step) - and other calls now run before the sweep goes on (hook expiry.window) *)
+| SExpireK (wc : string) (keys : list string) (parked : list N).
+                                 (* the sweep goes on: each of `keys` - what its query of wc returned - is removed if it is
+                                    STILL due (Collection.remove looks at the expiry again inside its transaction, fix 2068c64
+                                    of /repo), the collections after wc are swept, the timer is re-armed; `parked` are the
+                                    expiries of the calls made in between, whose requests to the expiry manager waited for the
+                                    sweep to release it *)
 
 Record sres := mkSres {
   sr_store : store;
@@ -166,6 +175,38 @@ Fixpoint expire_colls (s : store) (x : sctx) (cids : list N) (acc : list (N * st
   | cid :: r =>
       let '(s', acc') := expire_keys s x cid (due_keys s cid (x_now x)) acc in
       expire_colls s' x r acc'
+  end.
+
+(* the sweep interrupted between its query of a collection and its removals: a timestamp is drawn by every
+   transaction, also by one that then finds the document gone or no longer due and rolls back *)
+Definition burn (s : store) (x : sctx) : store :=
+  mkStore (s_docs s) (s_colls s) (s_nextcoll s) (s_lastcas s) (hlc_now (s_high s) (x_clock x)) (s_log s) (s_views s).
+
+Definition is_due (r : option row) (now : N) : bool :=
+  match r with Some r0 => (0 <? r_exp r0) && (r_exp r0 <=? now) | None => false end.
+
+Fixpoint expire_keys_chk (s : store) (x : sctx) (cid : N) (keys : list string) (acc : list (N * string * event))
+  : store * list (N * string * event) :=
+  match keys with
+  | [] => (s, acc)
+  | k :: r =>
+      if is_due (get_doc s (cid, k)) (x_now x)
+      then let res := kv_on s x cid k KDelete in expire_keys_chk (sr_store res) x cid r (acc ++ sr_events res)
+      else expire_keys_chk (burn s x) x cid r acc
+  end.
+
+(* the sweep before the fix: every key the query returned is deleted, whatever has become of it *)
+Definition expire_keys_unchecked := expire_keys.
+
+Fixpoint ids_before (cs : list (N * (string * N))) (wc : string) : list N :=
+  match cs with
+  | [] => []
+  | c :: r => if String.eqb (fst (snd c)) wc then [] else fst c :: ids_before r wc
+  end.
+Fixpoint ids_after (cs : list (N * (string * N))) (wc : string) : list N :=
+  match cs with
+  | [] => []
+  | c :: r => if String.eqb (fst (snd c)) wc then map fst r else ids_after r wc
   end.
 
 (* enqueueBackfillEvents ... ORDER BY cas : keys of a collection with cas >= start, in CAS order
@@ -581,6 +622,21 @@ Definition sstep (s : store) (x : sctx) (o : sop) : sres :=
       mkSres (mkStore (s_docs s) (s_colls s) (s_nextcoll s) (s_lastcas s)
                       (if n =? 0 then s_high s else hlc_now (s_high s) (x_clock x) + (n - 1))
                       (s_log s) (s_views s)) ROk [] []
+  | SExpireScan wc =>
+      match coll_id s wc with
+      | Some cid =>
+          let '(s', evs) := expire_colls s x (ids_before (s_colls s) wc) [] in
+          mkSres s' (RRows (due_keys s' cid (x_now x))) evs []
+      | None => mkSres s (RErr EOther) [] []
+      end
+  | SExpireK wc keys _ =>
+      match coll_id s wc with
+      | Some cid =>
+          let '(s1, evs1) := expire_keys_chk s x cid keys [] in
+          let '(s2, evs2) := expire_colls s1 x (ids_after (s_colls s) wc) evs1 in
+          mkSres s2 ROk evs2 []
+      | None => mkSres s (RErr EOther) [] []
+      end
   end.
 
 (* ------------------------------------------------------------------------------------------ *)
@@ -600,6 +656,8 @@ Definition resp_is_err (r : resp) : bool := match r with RErr _ => true | _ => f
 Definition next_after (next : N) (s : store) (o : sop) (res : sres) : N :=
   match o with
   | SExpire | SReopen => sched 0 (min_exp (sr_store res))
+  | SExpireK _ _ parked =>
+      if resp_is_err (sr_resp res) then next else fold_left sched parked (sched 0 (min_exp (sr_store res)))
   | SKv coll key op =>
       let n1 := fold_left sched (map (fun e => e_exp (snd e)) (sr_events res)) next in
       if is_touch op && negb (resp_is_err (sr_resp res)) then
